@@ -578,8 +578,8 @@ def main(chk):
                 c["build"] = build
             cases.append(c)
 
-    # formatter: quick ~3 M inputs, thorough ~200 M + every float32
-    m = 1 if q else 60
+    # formatter: quick ~6 M inputs, thorough ~170 M + every float32
+    m = 2 if q else 60
     add("fmt", "expo", 8, 100000 * m, locale_cases=4)
     add("fmt", "subnormal", 2, 50000 * m, locale_cases=0 if q else 1)
     add("fmt", "pow", 1, 0, locale_cases=1)
@@ -591,8 +591,8 @@ def main(chk):
     add("fmt", "short", 1, 50000 if q else 200000, build="asan")
     add("parse", "pdtoa", 1, 30000 if q else 200000, build="asan")
     add("parse", "vlong", 1, 5000 if q else 50000, build="asan")
-    # parser: quick ~330 k spellings, thorough ~20 M
-    m = 1 if q else 60
+    # parser: quick ~660 k spellings, thorough ~23 M
+    m = 2 if q else 60
     add("parse", "short", 3, 20000 * m, locale_cases=1)
     add("parse", "exp", 3, 20000 * m, locale_cases=1)
     add("parse", "long", 2, 20000 * m)
@@ -607,7 +607,7 @@ def main(chk):
         for i in range(256):
             cases.append(dict(kind="f32", lo=i << 24, hi=(i + 1) << 24, parse_every=16, locale=(i % 16 == 7)))
     # end to end
-    n_e2e = chk.pick(24, 150)
+    n_e2e = chk.pick(32, 150)
     backends = ["-python-native", "-python-native", "-c", "-python"]
     for i in range(n_e2e):
         hrng = random.Random(rng.getrandbits(64))
